@@ -545,7 +545,7 @@ class ApplicationContextItem(object):
         :return: decoded item
         """
         _, reserved, item_length = cls.header.unpack(stream.read(4))
-        context_name = stream.read(item_length).decode()
+        context_name = stream.read(item_length).decode('ascii')
         return cls(reserved=reserved, context_name=context_name)
 
     def total_length(self):
@@ -774,7 +774,7 @@ class AbstractSyntaxSubItem(object):
         :return: decoded abstract syntax sub-item
         """
         _, reserved, item_length = cls.header.unpack(stream.read(4))
-        name = uid.UID(stream.read(item_length).decode())
+        name = uid.UID(stream.read(item_length).decode('ascii'))
         return cls(name=name, reserved=reserved)
 
     def total_length(self):
@@ -832,7 +832,7 @@ class TransferSyntaxSubItem(object):
         """
         _, reserved, item_length = cls.header.unpack(stream.read(4))
         name = stream.read(item_length)
-        return cls(name=name.decode(), reserved=reserved)
+        return cls(name=name.decode('ascii'), reserved=reserved)
 
     def total_length(self):
         """Total item length, including the header
